@@ -4,7 +4,7 @@
 P=$1; N=${2:-2000}; R=${3:-8}
 K=$(mktemp); : > $K
 for i in $(seq 1 $R); do
-  VERIF_MODE=batch VERIF_PROP=$P VERIF_TIER=quick VERIF_SEED=$i VERIF_FROM=0 VERIF_COUNT=$N VERIF_KNOWN=$K VERIF_REPLAY_DIR=/tmp/classes-$P VERIF_OUT=/tmp/classes-$P.json timeout 900 /verif/bin/sim.det -test.run TestWorker >/dev/null 2>&1
+  VERIF_MODE=batch VERIF_PROP=$P VERIF_TIER=quick VERIF_SEED=$i VERIF_FROM=0 VERIF_COUNT=$N VERIF_KNOWN=$K VERIF_REPLAY_DIR=/tmp/classes-$P VERIF_OUT=/tmp/classes-$P.json timeout 900 ${BIN:-/verif/bin/sim.det} -test.run TestWorker >/dev/null 2>&1
   python3 - $K /tmp/classes-$P.json <<'PY'
 import json,sys
 d=json.load(open(sys.argv[2]))
